@@ -38,37 +38,37 @@ func c06(c *an.Ctx) {
 			if nm == nil || nm.Obj().Name() != "SelectionSet" || (f != "Selections" && f != "Fragments") {
 				return
 			}
-			call, ok := st.Val.(*ssa.Call)
-			if !ok {
-				return
-			}
-			if b, ok := call.Call.Value.(*ssa.Builtin); !ok || b.Name() != "append" {
+			// the appends that build the stored list (directly, or accumulated in a local first)
+			calls := appendChain(st.Val)
+			if len(calls) == 0 {
 				return
 			}
 			n[f]++
 			o.Site(i)
-			// guards inside the loop must be identity lookups only
-			for _, g := range an.GuardsOf(i.Block()) {
-				ex, ok := g.Cond.(*ssa.Extract)
-				if !ok {
-					continue
+			for _, call := range calls {
+				// guards inside the loop must be identity lookups only
+				for _, g := range an.GuardsOf(call.Block()) {
+					ex, ok := g.Cond.(*ssa.Extract)
+					if !ok {
+						continue
+					}
+					lk, ok := ex.Tuple.(*ssa.Lookup)
+					if !ok {
+						continue
+					}
+					mt, ok := lk.X.Type().Underlying().(*types.Map)
+					if !ok {
+						continue
+					}
+					if _, isPtr := mt.Key().Underlying().(*types.Pointer); !isPtr {
+						o.FailAt(call, "sub-%s of a later same-alias selection are dropped when a map keyed by %s (%s) already has an entry: two different sub-selections with the same alias/name lose one of them (a{y} a{x{p} x{q}} loses q)", strings.ToLower(f), mt.Key().String(), an.Short(an.Expr(lk.Index), 40))
+					}
 				}
-				lk, ok := ex.Tuple.(*ssa.Lookup)
-				if !ok {
-					continue
+				// the appended element belongs to the selection being merged
+				src := an.Expr(call.Call.Args[1])
+				if !strings.Contains(src, "varargs") && !strings.Contains(src, ".SelectionSet."+f) {
+					o.FailAt(call, "merged %s receive %s", f, src)
 				}
-				mt, ok := lk.X.Type().Underlying().(*types.Map)
-				if !ok {
-					continue
-				}
-				if _, isPtr := mt.Key().Underlying().(*types.Pointer); !isPtr {
-					o.FailAt(i, "sub-%s of a later same-alias selection are dropped when a map keyed by %s (%s) already has an entry: two different sub-selections with the same alias/name lose one of them (a{y} a{x{p} x{q}} loses q)", strings.ToLower(f), mt.Key().String(), an.Short(an.Expr(lk.Index), 40))
-				}
-			}
-			// the appended element belongs to the selection being merged
-			src := an.Expr(call.Call.Args[1])
-			if !strings.Contains(src, "varargs") && !strings.Contains(src, ".SelectionSet."+f) {
-				o.FailAt(i, "merged %s receive %s", f, src)
 			}
 		})
 		for _, f := range []string{"Selections", "Fragments"} {
@@ -817,4 +817,31 @@ func loopEncloses(v ssa.Value, i ssa.Instruction) bool {
 		}
 	}
 	return false
+}
+
+// appendChain returns the append calls that build the slice v: v itself, the
+// slices it extends, and the alternatives of phis in between.
+func appendChain(v ssa.Value) []*ssa.Call {
+	var out []*ssa.Call
+	seen := map[ssa.Value]bool{}
+	var walk func(v ssa.Value)
+	walk = func(v ssa.Value) {
+		if v == nil || seen[v] {
+			return
+		}
+		seen[v] = true
+		switch x := v.(type) {
+		case *ssa.Phi:
+			for _, e := range x.Edges {
+				walk(e)
+			}
+		case *ssa.Call:
+			if b, ok := x.Call.Value.(*ssa.Builtin); ok && b.Name() == "append" {
+				out = append(out, x)
+				walk(x.Call.Args[0])
+			}
+		}
+	}
+	walk(v)
+	return out
 }
